@@ -5,6 +5,7 @@ package main
 
 import (
 	"fmt"
+	"regexp"
 	"go/constant"
 	"go/token"
 	"go/types"
@@ -26,6 +27,10 @@ type HarnessCfg struct {
 	Opts       map[string]string
 	ExpectFail bool // vacuity twin: must be sat
 	Stubs      map[string]string // full function name -> harness-package function
+	CapFunc    string            // function name whose source variables are captured
+	CapVars    map[string]bool   // captured variable names
+	CapTrigger string            // variable whose (re)definition takes a snapshot / cut
+	CapCut     map[string]bool   // variables replaced by fresh constants at each trigger
 }
 
 type Obligation struct {
@@ -103,8 +108,17 @@ type Exec struct {
 	defOf       map[int]*Term // auxiliary constant -> its definitional equation
 	defAsserted map[int]bool
 	feltQ       map[string]*big.Int
+	pinRe       *regexp.Regexp
+	pinVals     map[string]*big.Int
 	byteProv    map[int]byteProv
 	ufApps      map[string][]*ufApp
+	capAll      map[string][]*Term       // every distinct definition of a captured variable, in order
+	capLastReg  map[string]ssa.Value     // SSA register currently holding the variable
+	capSnaps    []map[string]*Term       // values of captured variables at each trigger
+	capCutOld   []map[string]*Term       // values replaced at each trigger
+	capCutNew   []map[string]*Term       // fresh constants introduced at each trigger
+	capFinal    map[string]*Term
+	capLastVal  map[string]Value
 	ufAppSeen   map[string]bool
 	lenientFn   *ssa.Function // top-level init function executed leniently (failing instructions are skipped)
 	folded      int
@@ -118,7 +132,7 @@ func NewExec(prog *ssa.Program, cfg *HarnessCfg) *Exec {
 		initDone: map[*ssa.Package]bool{}, initRunning: map[*ssa.Package]bool{},
 		notes: map[string]int{}, loopCache: map[*ssa.Function]*loopForest{},
 		funcsSeen: map[string]bool{}, errObjs: map[string]*Object{}, typeObjs: map[string]*Object{},
-		ufAxiomDone: map[string]bool{}, strIntern: map[string]int{}, ghost: map[string]Value{}, negOf: map[int]*Term{}, dmCache: map[string][2]*Term{}, defOf: map[int]*Term{}, defAsserted: map[int]bool{}, feltQ: map[string]*big.Int{}, byteProv: map[int]byteProv{}, ufApps: map[string][]*ufApp{}, ufAppSeen: map[string]bool{}}
+		ufAxiomDone: map[string]bool{}, strIntern: map[string]int{}, ghost: map[string]Value{}, negOf: map[int]*Term{}, dmCache: map[string][2]*Term{}, defOf: map[int]*Term{}, defAsserted: map[int]bool{}, feltQ: map[string]*big.Int{}, byteProv: map[int]byteProv{}, ufApps: map[string][]*ufApp{}, capAll: map[string][]*Term{}, capLastReg: map[string]ssa.Value{}, capFinal: map[string]*Term{}, capLastVal: map[string]Value{}, ufAppSeen: map[string]bool{}}
 }
 
 func (ex *Exec) note(s string) { ex.notes[s]++ }
@@ -721,6 +735,9 @@ func (ex *Exec) execBlock(act *activation, b *ssa.BasicBlock, st *PState) {
 		case *ssa.Send:
 			ex.chanSend(st, ex.operand(st, in.Chan), ex.operand(st, in.X))
 		case *ssa.DebugRef:
+			if ex.cfg.CapFunc != "" && act.fn.Name() == ex.cfg.CapFunc {
+				ex.captureRef(st, in, setEnv)
+			}
 			continue
 		case ssa.Value:
 			v := ex.evalValue(act, st, in)
@@ -728,6 +745,99 @@ func (ex *Exec) execBlock(act *activation, b *ssa.BasicBlock, st *PState) {
 		default:
 			fail("unsupported instruction %T", instr)
 		}
+	}
+}
+
+// captureRef tracks source-level variables of the configured function (ghost observation of
+// intermediate values, and cut points at which they are replaced by fresh constants).
+func (ex *Exec) captureRef(st *PState, in *ssa.DebugRef, setEnv func(ssa.Value, Value)) {
+	obj := in.Object()
+	if obj == nil || in.IsAddr {
+		return
+	}
+	name := obj.Name()
+	isTrig := name == ex.cfg.CapTrigger
+	if !ex.cfg.CapVars[name] && !isTrig {
+		return
+	}
+	v, ok := st.env[in.X]
+	if ex.capLastReg[name] == in.X && ok && ex.capLastVal[name] == v {
+		return
+	}
+	if !ok {
+		if c, isC := in.X.(*ssa.Const); isC {
+			v = ex.constValue(c)
+		} else {
+			return
+		}
+	}
+	ex.capLastVal[name] = v
+	if _, isP := v.(*PtrV); isP && ex.cfg.CapVars[name] {
+		// pointer-typed variable (e.g. the receiver): tracked for memory cuts at triggers
+		ex.capLastReg[name] = in.X
+		return
+	}
+	t, isT := v.(*Term)
+	if !isT {
+		return
+	}
+	ex.capLastReg[name] = in.X
+	if ex.cfg.CapVars[name] {
+		ex.capAll[name] = append(ex.capAll[name], t)
+		ex.capFinal[name] = t
+	}
+	if isTrig {
+		snap := map[string]*Term{}
+		olds := map[string]*Term{}
+		news := map[string]*Term{}
+		k := len(ex.capSnaps)
+		for vn := range ex.cfg.CapVars {
+			reg, has := ex.capLastReg[vn]
+			if !has {
+				continue
+			}
+			if pv, isP := st.env[reg].(*PtrV); isP && pv.Obj != nil {
+				// memory cut: the abstract leaf the pointer refers to
+				leaf, isT := ex.load(st, pv).(*Term)
+				if !isT {
+					continue
+				}
+				snap[vn] = leaf
+				if ex.cfg.CapCut[vn] && !leaf.IsConst() {
+					if ex.pinRe != nil {
+						olds[vn], news[vn] = leaf, leaf
+					} else {
+						nv := ex.ts.Var(fmt.Sprintf("cut!%s!%d", vn, k), leaf.sort, nil, nil)
+						olds[vn], news[vn] = leaf, nv
+						ex.store(st, pv, nv)
+					}
+				}
+				continue
+			}
+			cur, ok := st.env[reg].(*Term)
+			if !ok {
+				continue
+			}
+			snap[vn] = cur
+			if ex.cfg.CapCut[vn] && ex.pinRe != nil {
+				// exact (pinned) re-run: observe only, so that a model is an end-to-end input
+				olds[vn] = cur
+				news[vn] = cur
+			} else if ex.cfg.CapCut[vn] && !cur.IsConst() {
+				lo, hi := cur.lo, cur.hi
+				if ii, ok := basicIntInfo(reg.Type()); ok {
+					lo, hi = ii.lo, ii.hi
+				}
+				nv := ex.ts.Var(fmt.Sprintf("cut!%s!%d", vn, k), SInt, lo, hi)
+				olds[vn] = cur
+				news[vn] = nv
+				setEnv(reg, nv)
+				ex.capFinal[vn] = nv
+			}
+		}
+		ex.capSnaps = append(ex.capSnaps, snap)
+		ex.capCutOld = append(ex.capCutOld, olds)
+		ex.capCutNew = append(ex.capCutNew, news)
 	}
 }
 
